@@ -1,5 +1,7 @@
 package server
 
+import "context"
+
 type zzCb struct {
 	done *int64
 	errs *int64
@@ -164,4 +166,49 @@ func ZZTrackerHistory(rf, steps int) {
 	q.Close()
 	vAssert("close-fails-pending-once", dn+en == 1)
 	vReach("end")
+}
+
+// ZZTrackerRace (C08): writers and follower acknowledgements race on the real quorum tracker. k writers
+// each do what leaderController.write does after the WAL append — AdvanceHeadOffset(o),
+// WaitForCommitOffsetAsync(o, cb) — while a follower cursor acknowledges offsets 0..k-1 in order, with
+// preemption at every lock acquisition / release of the tracker. Whatever the interleaving: once every
+// offset is stored by a quorum (RF 2: leader + the follower) every writer has been answered, exactly
+// once, without error — no write is left hanging with commit == head. (`rounds` repeats the scenario; it is
+// 1 in the symbolic run and raised for the native replay of a counterexample schedule.)
+func ZZTrackerRace(k, rounds int) {
+	for r := 0; r < rounds; r++ {
+		zzTrackerRaceOnce(k)
+	}
+	vReach("end")
+}
+
+func zzTrackerRaceOnce(k int) {
+	q := NewQuorumAckTracker(2, -1, -1).(*quorumAckTracker)
+	ca, err := q.NewCursorAcker(-1)
+	vAssert("cursor-attached", err == nil)
+	dn := make([]int64, k)
+	en := make([]int64, k)
+	done := make(chan int, k+1)
+	appended := make(chan int64, k) // the replication stream: the follower sees an entry after it is appended
+	vGo("writers", func() {
+		for i := 0; i < k; i++ {
+			o := q.NextOffset()
+			q.AdvanceHeadOffset(o)
+			appended <- o
+			q.WaitForCommitOffsetAsync(context.Background(), o, zzCb{&dn[i], &en[i]})
+		}
+		done <- 0
+	})
+	vGo("follower", func() {
+		for i := 0; i < k; i++ {
+			ca.Ack(<-appended)
+		}
+		done <- 1
+	})
+	<-done
+	<-done
+	vAssert("everything-committed", q.CommitOffset() == int64(k-1) && q.HeadOffset() == int64(k-1))
+	for i := 0; i < k; i++ {
+		vAssert("quorum-stored-write-is-answered-exactly-once", dn[i] == 1 && en[i] == 0)
+	}
 }
